@@ -348,6 +348,46 @@ def mkNode (p : NodePlace) (lvl : Nat) (n : List Nat) (p0 : Nat) (recs : List (B
     piAll := List.range recs.length ++ List.replicate (Gen.KVBLK_IDXNUM - recs.length) 0, n, bpos := p.bpos, lk,
     szpow := p.szpow, idxsz := (encSlots slots).length, slots, blk := p.blk, recs }
 
+/-! ### Layout of a database: a list of nodes (as in `Kv.Db`: level + records) placed in a file -/
+
+/-- a node of the key-value model with its place in the file -/
+structure PNode where
+  place : NodePlace
+  lvl : Nat
+  recs : List (Bytes × Bytes)
+deriving Repr
+
+/-- where the database block and the metadata blocks are -/
+structure DbPlace where
+  blk : Nat
+  metaBlk : Nat
+  metaBlkn : Nat
+deriving Repr
+
+/-- block of the first node of level `≥ i` among `rest`, 0 if none: the skip-list link of level `i` -/
+def nextAt (i : Nat) (rest : List PNode) : Nat := ((rest.find? (·.lvl ≥ i)).map (·.place.blk)).getD 0
+
+def mkNodes (prev : Nat) : List PNode → List Sblk
+  | [] => []
+  | x :: rest =>
+    mkNode x.place x.lvl ((List.range (x.lvl + 1)).map (nextAt · rest)) prev x.recs :: mkNodes x.place.blk rest
+
+/-- image of a database: header with head links, counters and tail link; nodes threaded by `mkNodes` -/
+def mkDb (dp : DbPlace) (flags id next : Nat) (ns : List PNode) : DbImg :=
+  { flags, id, next, p0 := (ns.getLast?.map (·.place.blk)).getD 0,
+    n := (List.range Gen.SLEVELS).map (nextAt · ns),
+    c := (List.range Gen.SLEVELS).map fun i => (ns.filter (·.lvl = i)).length,
+    metaBlk := dp.metaBlk, metaBlkn := dp.metaBlkn, blk := dp.blk, nodes := mkNodes dp.blk ns }
+
+/-- byte regions [start, end) a node occupies: its record and its data block -/
+def nodeRegions (p : NodePlace) : List (Nat × Nat) :=
+  [(p.blk * bs, p.blk * bs + Gen.SBLK_SZ), (p.kblk * bs, p.kblk * bs + 2 ^ p.szpow)]
+
+/-- all regions of a database: header, metadata, nodes -/
+def dbRegions (dp : DbPlace) (mlen : Nat) (ns : List PNode) : List (Nat × Nat) :=
+  (dp.blk * bs, dp.blk * bs + Gen.DOFF_END) :: (dp.metaBlk * bs, dp.metaBlk * bs + mlen) ::
+    ns.flatMap fun x => nodeRegions x.place
+
 /-! ### Re-encoding (`drv fmt reenc`): the encoders of Model/FormatEnc.lean against the bytes of a real file -/
 
 structure ReencCounts where
